@@ -50,7 +50,7 @@ theorem exec_append (E : EvalEnv) (a b : List Op) (s : St) :
 /-- the fragment set covered by T3 so far. -/
 def inS1 : Ms → Bool
   | .f0 | .f1 | .pk_k _ | .pk_h _ | .hash _ _ => true
-  | .wrap w x => (w == .c || w == .v || w == .a || w == .n) && inS1 x
+  | .wrap w x => (w == .c || w == .v || w == .a || w == .n || w == .s || w == .d) && inS1 x
   | .bin b x y =>
     (b == .and_v || b == .and_b || b == .or_b || b == .or_i || b == .or_c || b == .or_d) &&
       inS1 x && inS1 y
@@ -110,12 +110,15 @@ theorem exec_skip (E : EvalEnv) (ctx : Ctx) (h160 : Bytes → Bytes) :
     simp only [inS1, Bool.and_eq_true, Bool.or_eq_true, beq_iff_eq] at hin
     have H := fun v => exec_skip E ctx h160 x v st al cs hin.2 hc
     have hs := fun o ho os => exec_cons_skip E o os st al cs ho hc
-    rcases hin.1 with ((rfl | rfl) | rfl) | rfl
+    rcases hin.1 with ((((rfl | rfl) | rfl) | rfl) | rfl) | rfl
     · cases v <;> simp [opsOf, exec_append, H, hs .checksig rfl, hs .checksigverify rfl]
     · simp only [opsOf, exec_append, H]
       split <;> simp [hs .verify rfl]
     · simp [opsOf, exec_append, H, hs .toalt rfl, hs .fromalt rfl]
     · simp [opsOf, exec_append, H, hs .zeronotequal rfl]
+    · simp [opsOf, exec_append, H, hs .swap rfl]
+    · have H' := exec_skip E ctx h160 x false st al (false :: cs) hin.2 (by simp [executing_cons])
+      simp [opsOf, exec_append, hs .dup rfl, exec, step, hc, H']
   | .bin b x y, v, st, al, cs, hin, hc => by
     simp only [inS1, Bool.and_eq_true, Bool.or_eq_true, beq_iff_eq] at hin
     have Hx := fun v => exec_skip E ctx h160 x v st al cs hin.1.2 hc
@@ -148,7 +151,8 @@ inductive Sat (E : EvalEnv) : Ms → List Bytes → Prop
   | pk_k (k : Key) (σ : Bytes) : E.sigOK k σ = true → Sat E (.pk_k k) [σ]
   | pk_h (k : Key) (σ : Bytes) : E.sigOK k σ = true → Sat E (.pk_h k) [k, σ]
   | hash (h : HashKind) (d p : Bytes) : p.length = 32 → E.hashF h p = d → Sat E (.hash h d) [p]
-  | wrap (w : Wrap) (x : Ms) (s : List Bytes) : Sat E x s → Sat E (.wrap w x) s
+  | wrap (w : Wrap) (x : Ms) (s : List Bytes) : w ≠ .d → w ≠ .j → Sat E x s → Sat E (.wrap w x) s
+  | wrap_d (x : Ms) (s : List Bytes) : Sat E x s → Sat E (.wrap .d x) ([1] :: s)
   | and_v (x y : Ms) (sx sy : List Bytes) :
     Sat E x sx → Sat E y sy → Sat E (.bin .and_v x y) (sx ++ sy)
   | and_b (x y : Ms) (sx sy : List Bytes) :
@@ -190,6 +194,8 @@ inductive Dsat (E : EvalEnv) : Ms → List Bytes → Prop
   | or_i_l (x y : Ms) (sx : List Bytes) : Dsat E x sx → Dsat E (.bin .or_i x y) ([1] :: sx)
   | or_i_r (x y : Ms) (sy : List Bytes) : Dsat E y sy → Dsat E (.bin .or_i x y) ([] :: sy)
   | wrap_n (x : Ms) (s : List Bytes) : Dsat E x s → Dsat E (.wrap .n x) s
+  | wrap_s (x : Ms) (s : List Bytes) : Dsat E x s → Dsat E (.wrap .s x) s
+  | wrap_d (x : Ms) : Dsat E (.wrap .d x) [[]]
   | or_d (x y : Ms) (sx sy : List Bytes) :
     Dsat E x sx → Dsat E y sy → Dsat E (.bin .or_d x y) (sx ++ sy)
   | andor (x y z : Ms) (sx sz : List Bytes) :
@@ -372,6 +378,60 @@ theorem ty_andor (x y z : Ms) (h : Typed ctx (.andor x y z)) :
   cases hB : (typeOf ctx x).B <;> cases hd : (typeOf ctx x).d <;> cases hu : (typeOf ctx x).u <;>
     simp_all
 
+@[simp] theorem or_z (a b : Props) : (a ||| b).z = (a.z || b.z) := rfl
+@[simp] theorem or_o (a b : Props) : (a ||| b).o = (a.o || b.o) := rfl
+@[simp] theorem and_z (a b : Props) : (a &&& b).z = (a.z && b.z) := rfl
+@[simp] theorem and_o (a b : Props) : (a &&& b).o = (a.o && b.o) := rfl
+@[simp] theorem when_z (c : Bool) (p : Props) : (Props.when c p).z = (c && p.z) := by cases c <;> rfl
+@[simp] theorem when_o (c : Bool) (p : Props) : (Props.when c p).o = (c && p.o) := by cases c <;> rfl
+
+theorem zo_wrap (w : Wrap) (x : Ms) (h : Typed ctx (.wrap w x)) :
+    (typeOf ctx (.wrap w x)).z = (match w with | .v | .n => (typeOf ctx x).z | _ => false) ∧
+    (typeOf ctx (.wrap w x)).o = (match w with | .c | .v | .n | .j => (typeOf ctx x).o | .d => (typeOf ctx x).z | _ => false) := by
+  unfold Typed at h
+  simp only [typeOf] at h ⊢
+  rw [sanitized_eq _ h]
+  cases w <;> simp [wrapperProperties, Props.has]
+
+theorem zo_bin (b : Bin) (x y : Ms) (h : Typed ctx (.bin b x y)) :
+    (typeOf ctx (.bin b x y)).z = (match b with | .or_i => false | _ => (typeOf ctx x).z && (typeOf ctx y).z) ∧
+    (typeOf ctx (.bin b x y)).o = (match b with
+      | .or_i => (typeOf ctx x).z && (typeOf ctx y).z
+      | .or_c | .or_d => (typeOf ctx y).z && (typeOf ctx x).o
+      | _ => ((typeOf ctx x).z || (typeOf ctx y).z) && ((typeOf ctx x).o || (typeOf ctx y).o)) := by
+  unfold Typed at h
+  simp only [typeOf] at h ⊢
+  cases b <;> simp only [Bin.isAnd, if_true, Bool.false_eq_true, if_false] at h ⊢ <;> rw [sanitized_eq _ h] <;>
+    simp [andProperties, orProperties, Props.has]
+
+theorem zo_andor (x y z : Ms) (h : Typed ctx (.andor x y z)) :
+    (typeOf ctx (.andor x y z)).z = ((typeOf ctx x).z && (typeOf ctx y).z && (typeOf ctx z).z) ∧
+    (typeOf ctx (.andor x y z)).o = (((typeOf ctx x).z || ((typeOf ctx y).z && (typeOf ctx z).z)) &&
+      ((typeOf ctx x).o || ((typeOf ctx y).o && (typeOf ctx z).o))) := by
+  unfold Typed at h
+  simp only [typeOf] at h ⊢
+  rw [sanitized_eq _ h]
+  simp [andorProperties, Props.has]
+
+theorem ty_s (x : Ms) (h : Typed ctx (.wrap .s x)) :
+    (typeOf ctx x).B = true ∧ (typeOf ctx x).o = true ∧ (typeOf ctx (.wrap .s x)).W = true := by
+  unfold Typed at h
+  simp only [typeOf] at h ⊢
+  rw [sanitized_eq _ h]
+  rw [sanitized_eq _ h] at h
+  simp [wrapperProperties, Props.basicCount, Props.has] at h ⊢
+  exact ⟨h.1, h.2, h⟩
+
+theorem ty_d (x : Ms) (h : Typed ctx (.wrap .d x)) :
+    (typeOf ctx x).V = true ∧ (typeOf ctx x).z = true ∧ (typeOf ctx (.wrap .d x)).B = true ∧
+      (typeOf ctx (.wrap .d x)).x = true := by
+  unfold Typed at h
+  simp only [typeOf] at h ⊢
+  rw [sanitized_eq _ h]
+  rw [sanitized_eq _ h] at h
+  simp [wrapperProperties, Props.basicCount, Props.has] at h ⊢
+  exact ⟨h.1, h.2, h⟩
+
 end
 
 /-! ### the induction -/
@@ -380,7 +440,7 @@ end
 def s1Typed (ctx : Ctx) : Ms → Bool
   | .f0 | .f1 | .pk_k _ | .pk_h _ | .hash _ _ => true
   | .wrap w x =>
-    (w == .c || w == .v || w == .a || w == .n) &&
+    (w == .c || w == .v || w == .a || w == .n || w == .s || w == .d) &&
       decide ((typeOf ctx (.wrap w x)).basicCount = 1) && s1Typed ctx x
   | .bin b x y =>
     (b == .and_v || b == .and_b || b == .or_b || b == .or_i || b == .or_c || b == .or_d) &&
@@ -523,7 +583,7 @@ theorem sound_c (x : Ms) (ht : Typed ctx (.wrap .c x)) (ih : Sound E ctx h160 x)
   refine sound_of_B E ctx h160 _ ht hB ⟨?_, ?_, ?_⟩
   · intro s stk al cs hc hs
     cases hs with
-    | wrap _ _ _ hs =>
+    | wrap _ _ _ _ _ hs =>
       obtain ⟨k, σ, hσ, e⟩ := ks s stk al cs hc hs
       simp [opsOf, exec_append, e, exec_cons_run E .checksig [] _ al cs rfl hc, stepExec, hσ, boolBytes]
   · intro s stk al cs hc hs
@@ -533,7 +593,7 @@ theorem sound_c (x : Ms) (ht : Typed ctx (.wrap .c x)) (ih : Sound E ctx h160 x)
       simp [opsOf, exec_append, e, exec_cons_run E .checksig [] _ al cs rfl hc, stepExec, hσ, boolBytes]
   · intro s stk al cs hc hs
     cases hs with
-    | wrap _ _ _ hs =>
+    | wrap _ _ _ _ _ hs =>
       obtain ⟨k, σ, hσ, e⟩ := ks s stk al cs hc hs
       simp [opsOf, hx, exec_append, e, exec_cons_run E .checksigverify [] _ al cs rfl hc, stepExec, hσ]
 
@@ -544,7 +604,7 @@ theorem sound_v (x : Ms) (ht : Typed ctx (.wrap .v x)) (ih : Sound E ctx h160 x)
   refine sound_of_V E ctx h160 _ ht hV ?_
   intro s stk al cs hc hs
   cases hs with
-  | wrap _ _ _ hs => simpa [opsOf] using bv s stk al cs hc hs
+  | wrap _ _ _ _ _ hs => simpa [opsOf] using bv s stk al cs hc hs
 
 theorem sound_a (x : Ms) (ht : Typed ctx (.wrap .a x)) (ih : Sound E ctx h160 x) :
     Sound E ctx h160 (.wrap .a x) := by
@@ -553,7 +613,7 @@ theorem sound_a (x : Ms) (ht : Typed ctx (.wrap .a x)) (ih : Sound E ctx h160 x)
   refine sound_of_W E ctx h160 _ ht hW ⟨?_, ?_⟩
   · intro top s stk al cs hc hs
     cases hs with
-    | wrap _ _ _ hs =>
+    | wrap _ _ _ _ _ hs =>
       refine ⟨top :: [1] :: stk, ?_, Or.inr rfl⟩
       simp [opsOf, exec_append, exec_cons_run E .toalt _ _ al cs rfl hc, stepExec,
         bs s stk (top :: al) cs hc hs, exec_cons_run E .fromalt [] _ (top :: al) cs rfl hc]
@@ -792,7 +852,7 @@ theorem sound_n (x : Ms) (ht : Typed ctx (.wrap .n x)) (ih : Sound E ctx h160 x)
         some ⟨[1] :: stk, al, cs⟩ := by
     intro s stk al cs hc hs
     cases hs with
-    | wrap _ _ _ hs =>
+    | wrap _ _ _ _ _ hs =>
       simp [opsOf, exec_append, bs s stk al cs hc hs,
         exec_cons_run E .zeronotequal [] _ al cs rfl hc, stepExec, numTruth, castToBool, boolBytes]
   refine sound_of_B E ctx h160 _ ht tB ⟨hsat, ?_, bVer_of_x E ctx h160 _ tx rfl hsat⟩
@@ -994,6 +1054,224 @@ theorem sound_andor (x y z : Ms) (ht : Typed ctx (.andor x y z)) (hiy : inS1 y =
         obtain ⟨k, σ, hσ, e⟩ := yd sy stk al _ (hcs cs hc) hsy
         exact ⟨k, σ, hσ, viaY sx sy stk _ al cs hc hsx e⟩
 
+/-! ### "z" and "o": how many elements a (dis)satisfaction has -/
+
+/-- what "z" and "o" promise of a satisfaction or dissatisfaction: no element, exactly one. -/
+def Len (p : Props) (s : List Bytes) : Prop :=
+  (p.z = true → s.length = 0) ∧ (p.o = true → s.length = 1)
+
+theorem len_and_nat (xz xo yz yo : Bool) (a b : Nat) (hx : (xz = true → a = 0) ∧ (xo = true → a = 1))
+    (hy : (yz = true → b = 0) ∧ (yo = true → b = 1)) :
+    ((xz && yz) = true → a + b = 0) ∧ (((xz || yz) && (xo || yo)) = true → a + b = 1) := by
+  cases xz <;> cases xo <;> cases yz <;> cases yo <;> simp at hx hy ⊢ <;> omega
+
+theorem len_and {t tx ty : Props} {sx sy : List Bytes} (hz : t.z = (tx.z && ty.z))
+    (ho : t.o = ((tx.z || ty.z) && (tx.o || ty.o))) (hx : Len tx sx) (hy : Len ty sy) :
+    Len t (sx ++ sy) := by
+  unfold Len at *
+  rw [hz, ho, List.length_append]
+  exact len_and_nat _ _ _ _ _ _ hx hy
+
+theorem len_orc_nat (xz xo yz yo : Bool) (a b : Nat) (hx : (xz = true → a = 0) ∧ (xo = true → a = 1))
+    (hy : (yz = true → b = 0) ∧ (yo = true → b = 1)) :
+    (((xz && yz) = true → a = 0) ∧ ((yz && xo) = true → a = 1)) ∧
+    (((xz && yz) = true → a + b = 0) ∧ ((yz && xo) = true → a + b = 1)) := by
+  cases xz <;> cases xo <;> cases yz <;> cases yo <;> simp at hx hy ⊢ <;> omega
+
+theorem len_orc_l {t tx ty : Props} {sx : List Bytes} (hz : t.z = (tx.z && ty.z))
+    (ho : t.o = (ty.z && tx.o)) (hx : Len tx sx) : Len t sx := by
+  unfold Len at *
+  rw [hz, ho]
+  exact (len_orc_nat _ _ _ false _ 0 hx (by simp)).1
+
+theorem len_orc_r {t tx ty : Props} {sx sy : List Bytes} (hz : t.z = (tx.z && ty.z))
+    (ho : t.o = (ty.z && tx.o)) (hx : Len tx sx) (hy : Len ty sy) : Len t (sx ++ sy) := by
+  unfold Len at *
+  rw [hz, ho, List.length_append]
+  exact (len_orc_nat _ _ _ _ _ _ hx hy).2
+
+theorem len_ori_nat (xz yz : Bool) (a : Nat) (h : (xz = true → a = 0) ∨ (yz = true → a = 0)) :
+    (xz && yz) = true → a + 1 = 1 := by
+  cases xz <;> cases yz <;> simp at h ⊢ <;> omega
+
+theorem len_ori {t tx ty : Props} {s : List Bytes} (v : Bytes) (hz : t.z = false)
+    (ho : t.o = (tx.z && ty.z)) (h : Len tx s ∨ Len ty s) : Len t (v :: s) := by
+  unfold Len at *
+  rw [hz, ho, List.length_cons]
+  refine ⟨by simp, len_ori_nat _ _ _ ?_⟩
+  rcases h with h | h
+  · exact Or.inl h.1
+  · exact Or.inr h.1
+
+theorem len_andor_nat (xz xo yz yo zz zo : Bool) (a b : Nat)
+    (hx : (xz = true → a = 0) ∧ (xo = true → a = 1))
+    (h2 : ((yz = true → b = 0) ∧ (yo = true → b = 1)) ∨ ((zz = true → b = 0) ∧ (zo = true → b = 1))) :
+    ((xz && yz && zz) = true → a + b = 0) ∧
+    (((xz || (yz && zz)) && (xo || (yo && zo))) = true → a + b = 1) := by
+  cases xz <;> cases xo <;> cases yz <;> cases yo <;> cases zz <;> cases zo <;>
+    rcases h2 with h2 | h2 <;> simp at hx h2 ⊢ <;> omega
+
+theorem len_andor {t tx ty tz : Props} {sx s2 : List Bytes}
+    (hz : t.z = (tx.z && ty.z && tz.z))
+    (ho : t.o = ((tx.z || (ty.z && tz.z)) && (tx.o || (ty.o && tz.o)))) (hx : Len tx sx)
+    (h2 : Len ty s2 ∨ Len tz s2) : Len t (sx ++ s2) := by
+  unfold Len at *
+  rw [hz, ho, List.length_append]
+  exact len_andor_nat _ _ _ _ _ _ _ _ hx h2
+
+theorem len_s1 : ∀ (n : Ms), s1Typed ctx n = true →
+    (∀ s, Sat E n s → Len (typeOf ctx n) s) ∧ (∀ s, Dsat E n s → Len (typeOf ctx n) s)
+  | .f0, _ => by
+    have hz : (typeOf ctx .f0).o = false := rfl
+    constructor <;> intro s hs <;> cases hs <;> simp [Len, hz]
+  | .f1, _ => by
+    have hz : (typeOf ctx .f1).o = false := rfl
+    constructor <;> intro s hs <;> cases hs <;> simp [Len, hz]
+  | .pk_k k, _ => by
+    have hz : (typeOf ctx (.pk_k k)).z = false := rfl
+    constructor <;> intro s hs <;> cases hs <;> simp [Len, hz]
+  | .pk_h k, _ => by
+    have hz : (typeOf ctx (.pk_h k)).z = false := rfl
+    have ho : (typeOf ctx (.pk_h k)).o = false := rfl
+    constructor <;> intro s hs <;> cases hs <;> simp [Len, hz, ho]
+  | .hash hk d, _ => by
+    have hz : (typeOf ctx (.hash hk d)).z = false := rfl
+    constructor <;> intro s hs <;> cases hs <;> simp [Len, hz]
+  | .wrap w x, h => by
+    simp only [s1Typed, Bool.and_eq_true, Bool.or_eq_true, beq_iff_eq, decide_eq_true_eq] at h
+    obtain ⟨ihs, ihd⟩ := len_s1 x h.2
+    obtain ⟨hz, ho⟩ := zo_wrap ctx w x h.1.2
+    constructor
+    · intro s hs
+      cases hs with
+      | wrap _ _ _ _ _ hs =>
+        have := ihs s hs
+        unfold Len at *
+        rw [hz, ho]
+        cases w <;> simp_all
+      | wrap_d _ sx hs =>
+        have := ihs sx hs
+        unfold Len at *
+        rw [hz, ho]
+        simp_all
+    · intro s hs
+      unfold Len
+      rw [hz, ho]
+      cases hs with
+      | wrap_c _ _ hs => have := ihd s hs; unfold Len at this; simp_all
+      | wrap_a _ _ hs => simp
+      | wrap_n _ _ hs => have := ihd s hs; unfold Len at this; simp_all
+      | wrap_s _ _ hs => simp
+      | wrap_d _ => simp
+  | .bin b x y, h => by
+    simp only [s1Typed, Bool.and_eq_true, Bool.or_eq_true, beq_iff_eq, decide_eq_true_eq] at h
+    obtain ⟨xs, xd⟩ := len_s1 x h.1.2
+    obtain ⟨ys, yd⟩ := len_s1 y h.2
+    obtain ⟨hz, ho⟩ := zo_bin ctx b x y h.1.1.2
+    constructor
+    · intro s hs
+      cases hs with
+      | and_v _ _ sx sy hsx hsy => exact len_and hz ho (xs _ hsx) (ys _ hsy)
+      | and_b _ _ sx sy hsx hsy => exact len_and hz ho (xs _ hsx) (ys _ hsy)
+      | or_b_l _ _ sx sy hsx hsy => exact len_and hz ho (xs _ hsx) (yd _ hsy)
+      | or_b_r _ _ sx sy hsx hsy => exact len_and hz ho (xd _ hsx) (ys _ hsy)
+      | or_b_both _ _ sx sy hsx hsy => exact len_and hz ho (xs _ hsx) (ys _ hsy)
+      | or_i_l _ _ sx hsx => exact len_ori _ hz ho (Or.inl (xs _ hsx))
+      | or_i_r _ _ sy hsy => exact len_ori _ hz ho (Or.inr (ys _ hsy))
+      | or_c_l _ _ _ hsx => exact len_orc_l hz ho (xs _ hsx)
+      | or_c_r _ _ sx sy hsx hsy => exact len_orc_r hz ho (xd _ hsx) (ys _ hsy)
+      | or_d_l _ _ _ hsx => exact len_orc_l hz ho (xs _ hsx)
+      | or_d_r _ _ sx sy hsx hsy => exact len_orc_r hz ho (xd _ hsx) (ys _ hsy)
+    · intro s hs
+      cases hs with
+      | and_b _ _ sx sy hsx hsy => exact len_and hz ho (xd _ hsx) (yd _ hsy)
+      | and_b_l _ _ sx sy hsx hsy => exact len_and hz ho (xs _ hsx) (yd _ hsy)
+      | and_b_r _ _ sx sy hsx hsy => exact len_and hz ho (xd _ hsx) (ys _ hsy)
+      | or_b _ _ sx sy hsx hsy => exact len_and hz ho (xd _ hsx) (yd _ hsy)
+      | or_i_l _ _ sx hsx => exact len_ori _ hz ho (Or.inl (xd _ hsx))
+      | or_i_r _ _ sy hsy => exact len_ori _ hz ho (Or.inr (yd _ hsy))
+      | or_d _ _ sx sy hsx hsy => exact len_orc_r hz ho (xd _ hsx) (yd _ hsy)
+  | .andor x y z, h => by
+    simp only [s1Typed, Bool.and_eq_true, decide_eq_true_eq] at h
+    obtain ⟨xs, xd⟩ := len_s1 x h.1.1.2
+    obtain ⟨ys, yd⟩ := len_s1 y h.1.2
+    obtain ⟨zs, zd⟩ := len_s1 z h.2
+    obtain ⟨hz, ho⟩ := zo_andor ctx x y z h.1.1.1
+    constructor
+    · intro s hs
+      cases hs with
+      | andor_l _ _ _ sx sy hsx hsy => exact len_andor hz ho (xs _ hsx) (Or.inl (ys _ hsy))
+      | andor_r _ _ _ sx sz hsx hsz => exact len_andor hz ho (xd _ hsx) (Or.inr (zs _ hsz))
+    · intro s hs
+      cases hs with
+      | andor _ _ _ sx sz hsx hsz => exact len_andor hz ho (xd _ hsx) (Or.inr (zd _ hsz))
+      | andor_y _ _ _ sx sy hsx hsy => exact len_andor hz ho (xs _ hsx) (Or.inl (yd _ hsy))
+  | .older _, h | .after _, h | .multi _ _, h | .multi_a _ _, h
+  | .thresh _ _ _, h => by simp [s1Typed] at h
+
+theorem sound_s (x : Ms) (ht : Typed ctx (.wrap .s x)) (ih : Sound E ctx h160 x)
+    (hlen : ∀ s, (Sat E x s ∨ Dsat E x s) → Len (typeOf ctx x) s) :
+    Sound E ctx h160 (.wrap .s x) := by
+  obtain ⟨hB, ho, hW⟩ := ty_s ctx x ht
+  obtain ⟨bs, bd, _⟩ := ih.1 hB
+  refine sound_of_W E ctx h160 _ ht hW ⟨?_, ?_⟩
+  · intro top s stk al cs hc hs
+    cases hs with
+    | wrap _ _ _ _ _ hs =>
+      have hl := (hlen s (Or.inl hs)).2 ho
+      match s, hl with
+      | [e], _ =>
+        refine ⟨[1] :: top :: stk, ?_, Or.inl rfl⟩
+        have := bs [e] (top :: stk) al cs hc hs
+        simp only [List.cons_append, List.nil_append] at this
+        simp [opsOf, exec_cons_run E .swap _ _ al cs rfl hc, stepExec, this]
+  · intro top s stk al cs hc hs
+    cases hs with
+    | wrap_s _ _ hs =>
+      have hl := (hlen s (Or.inr hs)).2 ho
+      match s, hl with
+      | [e], _ =>
+        refine ⟨[] :: top :: stk, ?_, Or.inl rfl⟩
+        have := bd [e] (top :: stk) al cs hc hs
+        simp only [List.cons_append, List.nil_append] at this
+        simp [opsOf, exec_cons_run E .swap _ _ al cs rfl hc, stepExec, this]
+
+theorem sound_d (x : Ms) (ht : Typed ctx (.wrap .d x)) (hix : inS1 x = true)
+    (ih : Sound E ctx h160 x)
+    (hlen : ∀ s, (Sat E x s ∨ Dsat E x s) → Len (typeOf ctx x) s) :
+    Sound E ctx h160 (.wrap .d x) := by
+  obtain ⟨hV, hz, tB, tx⟩ := ty_d ctx x ht
+  have vx := ih.2.1 hV
+  have hsat : ∀ s stk al cs, executing cs = true → Sat E (.wrap .d x) s →
+      exec E (opsOf ctx h160 false (.wrap .d x)) ⟨s ++ stk, al, cs⟩ = some ⟨[1] :: stk, al, cs⟩ := by
+    intro s stk al cs hc hs
+    cases hs with
+    | wrap _ _ _ hd _ _ => exact absurd rfl hd
+    | wrap_d _ sx hsx =>
+      have hl := (hlen sx (Or.inl hsx)).1 hz
+      match sx, hl with
+      | [], _ =>
+        have e0 : step E .opif ⟨[1] :: [1] :: stk, al, cs⟩ = some ⟨[1] :: stk, al, true :: cs⟩ := by
+          simp [step, hc, castToBool]
+        have e1 := vx [] ([1] :: stk) al (true :: cs) (by simp [executing_cons, hc]) hsx
+        have e2 : step E .endif ⟨[1] :: stk, al, true :: cs⟩ = some ⟨[1] :: stk, al, cs⟩ := by
+          simp [step]
+        simp only [List.nil_append] at e1
+        simp only [opsOf, List.append_assoc, List.cons_append, List.nil_append]
+        rw [exec_cons_run E .dup _ _ al cs rfl hc]
+        simp only [stepExec, Option.bind_some, exec, e0, exec_append, e1, e2]
+  refine sound_of_B E ctx h160 _ ht tB ⟨hsat, ?_, bVer_of_x E ctx h160 _ tx rfl hsat⟩
+  intro s stk al cs hc hs
+  cases hs with
+  | wrap_d _ =>
+    have e0 : step E .opif ⟨[] :: [] :: stk, al, cs⟩ = some ⟨[] :: stk, al, false :: cs⟩ := by
+      simp [step, hc, castToBool]
+    have e1 := exec_skip E ctx h160 x false ([] :: stk) al (false :: cs) hix (by simp [executing_cons])
+    have e2 : step E .endif ⟨[] :: stk, al, false :: cs⟩ = some ⟨[] :: stk, al, cs⟩ := by simp [step]
+    simp only [opsOf, List.append_assoc, List.cons_append, List.nil_append]
+    rw [exec_cons_run E .dup _ _ al cs rfl hc]
+    simp only [stepExec, Option.bind_some, exec, e0, exec_append, e1, e2]
+
 /-- T3 for S1: every typed expression of the fragment set does to the stack what its type says. -/
 theorem sound_s1 (hsig0 : ∀ k, E.sigOK k [] = false) (hH : ∀ k, E.hashF .hash160 k = h160 k) :
     ∀ (n : Ms), s1Typed ctx n = true → Sound E ctx h160 n
@@ -1005,11 +1283,18 @@ theorem sound_s1 (hsig0 : ∀ k, E.sigOK k [] = false) (hH : ∀ k, E.hashF .has
   | .wrap w x, h => by
     simp only [s1Typed, Bool.and_eq_true, Bool.or_eq_true, beq_iff_eq, decide_eq_true_eq] at h
     have ih := sound_s1 hsig0 hH x h.2
-    rcases h.1.1 with ((rfl | rfl) | rfl) | rfl
+    have hlen : ∀ s, (Sat E x s ∨ Dsat E x s) → Len (typeOf ctx x) s := by
+      intro s hs
+      rcases hs with hs | hs
+      · exact (len_s1 E ctx x h.2).1 s hs
+      · exact (len_s1 E ctx x h.2).2 s hs
+    rcases h.1.1 with ((((rfl | rfl) | rfl) | rfl) | rfl) | rfl
     · exact sound_c E ctx h160 x h.1.2 ih
     · exact sound_v E ctx h160 x h.1.2 ih
     · exact sound_a E ctx h160 x h.1.2 ih
     · exact sound_n E ctx h160 x h.1.2 ih
+    · exact sound_s E ctx h160 x h.1.2 ih hlen
+    · exact sound_d E ctx h160 x h.1.2 (inS1_of_s1Typed ctx x h.2) ih hlen
   | .bin b x y, h => by
     simp only [s1Typed, Bool.and_eq_true, Bool.or_eq_true, beq_iff_eq, decide_eq_true_eq] at h
     have ihx := sound_s1 hsig0 hH x h.1.2
